@@ -253,6 +253,66 @@ theorem c07_client_release_enabled {P : WParams} {vo : Nat → Nat} {c0 c : Clie
     exact ⟨m, s, by rw [this, hms]⟩
   · obtain ⟨_, h2⟩ := htok; cases h2
 
+/-- **every operation the guard classes attempt is applicable**: a thread that has not finished and waits on a pending
+    operation (an atomic step inside a call, the release of an overwritten / destroyed guard, the downgrade store, a
+    payload access) can always take its quantum — the guard bookkeeping never asks the lock for a step on a request that
+    is not in the state the step needs (released twice, converted after being consumed, …). -/
+theorem c07_client_step_enabled {P : WParams} {vo : Nat → Nat} {c0 c : Client} (hi : Initial c0) (hwf : WF vo c0)
+    (hr : ReachableC P c0 c) (t : Nat) (ht : t < c.threads.size) (hf : (getThread c t).finished = false)
+    (hp : (getThread c t).pend ≠ .none) : (stepThread P c t).isSome = true := by
+  obtain ⟨ao, hI, hwf'⟩ := reachable_inv hi hwf hr
+  have htok := hI.thr t ht
+  simp only [stepThread, hf, Bool.false_eq_true, if_false]
+  cases hpend : (getThread c t).pend with
+  | none => exact absurd hpend hp
+  | start => simp
+  | payR0 _ => simp
+  | payR1 _ => simp
+  | payW0 _ _ => simp
+  | payW1 _ _ => simp
+  | atom lk a =>
+    simp only [TOk, hf, hpend, reduceCtorEq, if_false, Bool.false_eq_true] at htok
+    split at htok
+    · simp only [Stage] at htok
+      obtain ⟨_, _, hlkeq, haeq, ⟨k, _, hca⟩, _⟩ := htok
+      obtain ⟨_, _, h3, _⟩ := CallAg.facts hca (by intro l hl hh; rw [hh] at hl; cases hl)
+      have hvth : (viewOf vo ao c t).th = getThread c t := rfl
+      rw [hvth] at hlkeq haeq
+      rw [← hlkeq, ← haeq] at h3
+      have hne : agentLoc c lk a ≠ .idle := by intro hh; rw [hh] at h3; cases h3
+      obtain ⟨s', e, hat⟩ := atomStep_isSome (P := P) (s := lockSt c lk) (i := a) h3
+      simp only [WLock.step, agentLoc_some hne, hat, Option.map_some]
+      split <;> simp
+    · obtain ⟨_, h2⟩ := htok; cases h2
+  | rel lk a nv =>
+    obtain ⟨_, hen⟩ := c07_client_release_enabled hi hwf hr t lk a nv ht hf hpend
+    cases hst : WLock.step P (lockSt c lk) (.release a nv) with
+    | none => rw [hst] at hen; cases hen
+    | some r =>
+      obtain ⟨s', e⟩ := r
+      simp only [WLock.step] at hst
+      cases hag : (lockSt c lk).agents[a]? with
+      | none => simp [hag] at hst
+      | some loc =>
+        simp only [hag] at hst
+        cases hrs : releaseStep P (lockSt c lk) a loc nv with
+        | none => simp [hrs] at hst
+        | some r2 => simp [WLock.step, hag, hrs]
+  | dng lk a nv =>
+    simp only [TOk, hf, hpend, reduceCtorEq, if_false, Bool.false_eq_true] at htok
+    split at htok
+    · simp only [Stage] at htok
+      obtain ⟨_, _, hlkeq, haeq, _, _, hca⟩ := htok
+      obtain ⟨_, _, ⟨s0, h3⟩, _⟩ := CallAg.facts hca (by rintro l ⟨s, rfl⟩; simp)
+      have hvth : (viewOf vo ao c t).th = getThread c t := rfl
+      rw [hvth] at hlkeq haeq
+      rw [← hlkeq, ← haeq] at h3
+      have hne : agentLoc c lk a ≠ .idle := by rw [h3]; simp
+      have hsome := agentLoc_some hne
+      rw [h3] at hsome
+      simp [WLock.step, hsome, downgradeStep]
+    · obtain ⟨_, h2⟩ := htok; cases h2
+
 /-- non-vacuity: `mkClient` states are `Initial`; a two-thread program over the guard classes (LockSIX, UpgradeToX,
     operator bool, destructor / LockX, destructor) passes the executable premise `wfB`, which implies `WF` -/
 example : Initial (mkClient 1 #[.S, .X] #[#[.lock .S 0 0, .dtor 0], #[.lock .X 1 0, .dtor 1]]) :=
